@@ -140,7 +140,7 @@ func C05(env *Env) {
 				gateSpec{rule: "FETCH", name: "pck-crl-parse", m: pat.Bin("==", pat.Res("1", pat.Call("crypto/x509.ParseRevocationList", pat.Res("1", pat.Is(c.respPck)))), pat.Const("nil")), expect: "ParseRevocationList(PCK CRL body) error == nil"},
 				gateSpec{rule: "FETCH", name: "root-crl-get", m: pat.Bin("==", pat.Res("2", pat.Is(c.respRootCrl)), pat.Const("nil")), expect: "Get(root CRL distribution point) error == nil"},
 				gateSpec{rule: "FETCH", name: "root-crl-parse", m: pat.Bin("==", pat.Res("1", pat.Call("crypto/x509.ParseRevocationList", pat.Res("1", pat.Is(c.respRootCrl)))), pat.Const("nil")), expect: "ParseRevocationList(Root CA CRL body) error == nil"},
-				gateSpec{rule: "FETCH", name: "root-crl-url-present", m: pat.Bin("!=", pat.Len(pat.Field(c.qRoot, "CRLDistributionPoints")), pat.Const("0")), expect: "QE-identity issuer root has a CRL distribution point"},
+				gateSpec{rule: "FETCH", name: "root-crl-url-present", m: pat.NonEmpty(pat.Field(c.qRoot, "CRLDistributionPoints")), expect: "QE-identity issuer root has a CRL distribution point"},
 			)
 			specs = append(specs, crlAuthGates("AUTH", "rootCrl/chain-root", c.rootCrl, c.root)...)
 			specs = append(specs, crlAuthGates("AUTH", "pckCrl/chain-intermediate", c.pckCrl, c.inter)...)
